@@ -32,9 +32,13 @@ def has (Z : ZoneView) (n : List Bytes) : Prop := (Z.types n).isSome = true
 
 def hasType (Z : ZoneView) (n : List Bytes) (t : Nat) : Prop := ∃ ts, Z.types n = some ts ∧ t ∈ ts
 
-/-- empty-non-terminal rule: below the apex, the parent of an existing name exists -/
+/-- well-formed zone view: every name is at or below the apex (only the label count is needed),
+below the apex the parent of an existing name exists (empty-non-terminal rule), and a wildcard name
+is never a delegation point (RFC 4592 §4.2) -/
 structure WF (Z : ZoneView) : Prop where
+  below : ∀ n, Z.has n → Z.apex.length ≤ n.length
   closed : ∀ l ls, Z.has (l :: ls) → Z.apex.length ≤ ls.length → Z.has ls
+  wild_no_ns : ∀ ls, ¬ Z.hasType ([42] :: ls) tNS
 
 /-- a delegation point as seen from the parent side -/
 def Delegation (Z : ZoneView) (n : List Bytes) : Prop := Z.hasType n tNS ∧ ¬ Z.hasType n tSOA
